@@ -5,9 +5,9 @@ either right or provably wrong) or it is not recognised (inconclusive).  Everyth
 syntactic normalisation: comparisons to a canonical `diff op 0`, helper calls to parameter bindings,
 local aliases to the field they were copied from."""
 import ast
-from typing import Dict, List, Optional, Tuple
+from typing import Dict, List, Optional, Set, Tuple
 
-from .model import Repo, FunctionInfo, AnalysisError, walk_no_nested, src, call_name
+from .model import Repo, FunctionInfo, AnalysisError, walk_no_nested, src, call_name, clone, set_parents, parent
 from .dataflow import Defs
 from .ratfun import Normalizer, RF, Poly
 
@@ -119,8 +119,7 @@ def ifexp_facts(node) -> List[Tuple[ast.AST, bool]]:
 
 def inline_locals(e, defs: Defs, keep=(), depth: int = 3):
     """copy of expression `e` in which every load of a single-definition local (not a parameter, not in `keep`) is replaced by the
-    expression it was assigned:  h = f(x); y = a * h   is read as   y = a * f(x).   Positions are kept (copy_location)."""
-    import copy
+    expression it was assigned:  h = f(x); y = a * h   is read as   y = a * f(x).   Positions are kept."""
 
     class R(ast.NodeTransformer):
         def __init__(self, d):
@@ -135,6 +134,225 @@ def inline_locals(e, defs: Defs, keep=(), depth: int = 3):
             sites = defs.def_sites.get(n.id, [])
             if sites and not isinstance(sites[0], ast.Assign):
                 return n
-            new = R(self.d - 1).visit(copy.deepcopy(vals[0]))
-            return ast.copy_location(new, n) if hasattr(n, "lineno") else new
-    return R(depth).visit(copy.deepcopy(e))
+            return R(self.d - 1).visit(clone(vals[0]))
+    out = R(depth).visit(clone(e))
+    set_parents(out, parent(e))
+    return out
+
+
+_EXPANDED: Dict[tuple, Tuple[ast.AST, ast.AST]] = {}
+
+
+def expanded(repo: Repo, f: FunctionInfo, depth: int = 2, keep=()):
+    """The body of f with the calls of same-class methods / same-module functions it makes *as statements* replaced by the callee's
+    body (an analysis view: `extract method` undone).  Replaced are
+        self.h(args)                      (expression statement)
+        T = self.h(args)                  (callee: at most one `return`, as its last statement)
+        return self.h(args)               (tail call: every return of the callee becomes a return of f)
+    for *private, single-use* callees (name starts with an underscore, one calling function in the repository -- the signature of an
+    extracted method; `keep` names callees a rule anchors on and wants to stay calls) without decorators other than staticmethod / classmethod, without yield / global / nonlocal / nested functions, not
+    recursive.  Parameters are bound by `p = arg` assignments in front (none when the argument is the same name); callee locals that
+    clash with names of f are renamed.  Returns a FunctionDef node with parent links (its own parent is f.node's parent); the original
+    tree is untouched.  Callee statements keep their own line numbers."""
+    key = (id(f.node), depth, tuple(sorted(keep)))
+    hit = _EXPANDED.get(key)
+    if hit is not None and hit[0] is f.node:
+        return hit[1]
+    root = clone(f.node)
+    counter = [0]
+
+    def callee_of(call, g: FunctionInfo):
+        h = None
+        if isinstance(call.func, ast.Attribute) and isinstance(call.func.value, ast.Name) and g.cls is not None and call.func.value.id in ("self", "cls", g.cls.name):
+            h = g.cls.find_method(call.func.attr)
+        elif isinstance(call.func, ast.Name):
+            h = next((k for k in repo.functions if k.module is g.module and k.cls is None and k.name == call.func.id), None)
+        if h is None or h.node is f.node or not h.name.startswith("_") or h.name in keep:
+            return None
+        if len(callers_of(repo, h)) != 1:
+            return None
+        decos = [src(d) for d in h.node.decorator_list]
+        if any(d not in ("staticmethod", "classmethod") for d in decos):
+            return None
+        a = h.node.args
+        if a.vararg or a.kwarg or a.posonlyargs or a.kwonlyargs:
+            return None
+        for x in ast.walk(h.node):
+            if x is not h.node and isinstance(x, (ast.FunctionDef, ast.AsyncFunctionDef, ast.Lambda, ast.ClassDef, ast.Global, ast.Nonlocal, ast.Yield, ast.YieldFrom, ast.Await)):
+                return None
+            if isinstance(x, ast.Attribute) and x.attr == h.name and isinstance(x.value, ast.Name) and x.value.id in ("self", "cls"):
+                return None
+            if isinstance(x, ast.Call) and isinstance(x.func, ast.Name) and x.func.id in (h.name, "super"):
+                return None
+        return h
+
+    def bind(h: FunctionInfo, call, caller_names: Set[str]):
+        params = [x.arg for x in h.node.args.args]
+        decos = [src(d) for d in h.node.decorator_list]
+        env: Dict[str, ast.AST] = {}
+        ps = list(params)
+        if h.cls is not None and "staticmethod" not in decos:
+            if not ps:
+                return None
+            env[ps[0]] = call.func.value if isinstance(call.func, ast.Attribute) else ast.Name(id="self", ctx=ast.Load())
+            ps = ps[1:]
+        if any(isinstance(x, ast.Starred) for x in call.args) or any(k.arg is None for k in call.keywords) or len(call.args) > len(ps):
+            return None
+        for p_, v in zip(ps, call.args):
+            env[p_] = v
+        for k in call.keywords:
+            if k.arg not in ps or k.arg in env:
+                return None
+            env[k.arg] = k.value
+        dfl = h.node.args.defaults
+        for i, d in enumerate(dfl):
+            env.setdefault(params[len(params) - len(dfl) + i], d)
+        if any(p_ not in env for p_ in ps):
+            return None
+        body = clone([st for i, st in enumerate(h.node.body) if not (i == 0 and isinstance(st, ast.Expr) and isinstance(st.value, ast.Constant) and isinstance(st.value.value, str))])
+        # names of the callee: parameters + stored locals; rename those that clash with the caller unless they are the same-name argument
+        stored = {x.id for st in body for x in ast.walk(st) if isinstance(x, ast.Name) and isinstance(x.ctx, ast.Store)}
+        counter[0] += 1
+        ren: Dict[str, str] = {}
+        pre = []
+        for p_ in params:
+            arg = env[p_]
+            if isinstance(arg, ast.Name) and arg.id == p_:
+                continue
+            if p_ in ("self", "cls") and isinstance(arg, ast.Name) and arg.id in ("self", "cls"):
+                if arg.id != p_:
+                    ren[p_] = arg.id
+                continue
+            tgt = p_ if p_ not in caller_names else f"{p_}__{h.name.strip('_')}{counter[0]}"
+            if tgt != p_:
+                ren[p_] = tgt
+            a_ = ast.Assign(targets=[ast.Name(id=tgt, ctx=ast.Store())], value=clone(arg))
+            ast.copy_location(a_, call)
+            for x in ast.walk(a_):
+                if not hasattr(x, "lineno"):
+                    ast.copy_location(x, call)
+            pre.append(a_)
+        for nm in stored:
+            if nm in caller_names and nm not in params:
+                ren[nm] = f"{nm}__{h.name.strip('_')}{counter[0]}"
+        if ren:
+            for st in body:
+                for x in ast.walk(st):
+                    if isinstance(x, ast.Name) and x.id in ren:
+                        x.id = ren[x.id]
+                    if isinstance(x, ast.ExceptHandler) and x.name in ren:
+                        x.name = ren[x.name]
+        return pre, body
+
+    def process(fn_root, g: FunctionInfo, d: int):
+        if d <= 0:
+            return
+        changed = True
+        rounds = 0
+        while changed and rounds < 3:
+            changed = False
+            rounds += 1
+            caller_names = {x.id for x in ast.walk(fn_root) if isinstance(x, ast.Name)} | {a.arg for a in fn_root.args.args}
+            for owner in list(ast.walk(fn_root)):
+                if owner is not fn_root and isinstance(owner, (ast.FunctionDef, ast.AsyncFunctionDef, ast.Lambda, ast.ClassDef)):
+                    continue
+                for fld in ("body", "orelse", "finalbody"):
+                    blk = getattr(owner, fld, None)
+                    if not isinstance(blk, list):
+                        continue
+                    i = 0
+                    while i < len(blk):
+                        st = blk[i]
+                        call = None
+                        mode = None
+                        if isinstance(st, ast.Expr) and isinstance(st.value, ast.Call):
+                            call, mode = st.value, "expr"
+                        elif isinstance(st, ast.Assign) and isinstance(st.value, ast.Call):
+                            call, mode = st.value, "assign"
+                        elif isinstance(st, ast.Return) and isinstance(st.value, ast.Call):
+                            call, mode = st.value, "tail"
+                        h = callee_of(call, g) if call is not None else None
+                        if h is None:
+                            i += 1
+                            continue
+                        rets = [r for r in walk_no_nested(h.node) if isinstance(r, ast.Return)]
+                        last_is_ret = bool(h.node.body) and isinstance(h.node.body[-1], ast.Return)
+                        single_tail_return = len(rets) == 0 or (len(rets) == 1 and last_is_ret)
+                        if mode in ("expr", "assign") and not single_tail_return:
+                            i += 1
+                            continue
+                        b = bind(h, call, caller_names)
+                        if b is None:
+                            i += 1
+                            continue
+                        pre, body = b
+                        new = pre + body
+                        if mode in ("expr", "assign") and new and isinstance(new[-1], ast.Return):
+                            r = new.pop()
+                            if mode == "assign":
+                                same = len(st.targets) == 1 and r.value is not None and src(st.targets[0]) == src(r.value)
+                                if not same:         # x = x  (the helper returned the accumulator it was given) is dropped
+                                    a_ = ast.Assign(targets=clone(st.targets), value=r.value if r.value is not None else ast.Constant(value=None))
+                                    ast.copy_location(a_, st)
+                                    new.append(a_)
+                            elif r.value is not None:
+                                e_ = ast.Expr(value=r.value)
+                                ast.copy_location(e_, st)
+                                new.append(e_)
+                        elif mode == "assign":
+                            a_ = ast.Assign(targets=clone(st.targets), value=ast.Constant(value=None))
+                            ast.copy_location(a_, st)
+                            new.append(a_)
+                        elif mode == "tail" and not (new and isinstance(new[-1], (ast.Return, ast.Raise))):
+                            r_ = ast.Return(value=None)
+                            ast.copy_location(r_, st)
+                            new.append(r_)
+                        if not new:
+                            new = [ast.copy_location(ast.Pass(), st)]
+                        blk[i:i + 1] = new
+                        caller_names |= {x.id for s_ in new for x in ast.walk(s_) if isinstance(x, ast.Name)}
+                        changed = True
+                        i += len(new)
+            d -= 1
+            if d <= 0:
+                break
+    process(root, f, depth)
+    ast.fix_missing_locations(root)
+    set_parents(root, parent(f.node))
+    _EXPANDED[key] = (f.node, root)
+    return root
+
+
+def callers_of(repo: Repo, f: FunctionInfo) -> List[FunctionInfo]:
+    """functions of the same class (through self./cls./ClassName.) or the same module (bare name) that mention f by name
+    (calls and references such as map(self._h, xs)); a private helper's callers are where its body logically belongs"""
+    idx = getattr(repo, "_callers_idx", None)
+    if idx is None:
+        idx = {}
+        for g in repo.functions:
+            for x in walk_no_nested(g.node):
+                if isinstance(x, ast.Attribute) and isinstance(x.value, ast.Name) and g.cls is not None and x.value.id in ("self", "cls", g.cls.name):
+                    idx.setdefault((g.relpath, g.cls.name, x.attr), []).append(g)
+                elif isinstance(x, ast.Name) and isinstance(x.ctx, ast.Load):
+                    idx.setdefault((g.relpath, "", x.id), []).append(g)
+        repo._callers_idx = idx  # type: ignore
+    if f.cls is not None:
+        out = list(idx.get((f.relpath, f.cls.name, f.name), []))
+    else:
+        out = list(idx.get((f.relpath, "", f.name), []))
+    seen, res = set(), []
+    for g in out:
+        if g.node is not f.node and id(g.node) not in seen:
+            seen.add(id(g.node))
+            res.append(g)
+    return res
+
+
+def only_reached_from(repo: Repo, f: FunctionInfo, accept, depth: int = 3) -> bool:
+    """f is a private helper all of whose (transitive) callers satisfy accept(g)"""
+    if depth <= 0 or not f.name.startswith("_"):
+        return False
+    cs = callers_of(repo, f)
+    if not cs:
+        return False
+    return all(accept(g) or only_reached_from(repo, g, accept, depth - 1) for g in cs)
